@@ -11,7 +11,8 @@ package main
 // Correspondence: when the harness' own reader (c16mp.go) splits the bytes into exactly one item
 // tree inside the item-level model (valid UTF-8 in str items, NFC strings, extension bodies that
 // split into complete items) the outcome ok <value> / err / panic of the real code is compared with
-// the Lean model through the C16 driver ops mp.unmarshal / mp.implied.
+// the Lean model through the driver ops d17.unmarshal (lean/CtyModel/d17Msgpack.lean: the decoder model of C17,
+// which follows /repo bb6ac26) and mp.implied; d17.allocfit ties the allocation cost model to the measurement.
 
 import (
 	"encoding/hex"
@@ -34,6 +35,8 @@ type c17mCase struct {
 	golit string // big: the replay
 	want  string // regression cases: the required outcome of Unmarshal ("" = anything but a panic)
 	fix   string
+	cut   string // d17 cut-off documents: the model's wire form of the document (lean D17.Cut), for d17.cutfit
+	per   int    // … and the least number of bytes one counted slot costs (32-byte cty.Value slots: 16; extension bodies: 1)
 }
 
 type c17m struct {
@@ -143,9 +146,8 @@ func c17mAllocCause(b []byte, alloc, limit uint64) string {
 	return "unexpected"
 }
 
-// c17mStaleBB6: a refinement map that states both length bounds (the item-level model does not
-// follow /repo bb6ac26 yet: it would build the known list the decoder now refuses)
-func c17mStaleBB6(it *mpItem) bool {
+// bb6: the tree holds a refinement map that states both length bounds (the inputs /repo bb6ac26 is about)
+func bb6(it *mpItem) bool {
 	if it.kind == "ext" && it.code == 12 && it.hdr == "m" {
 		lo, hi := false, false
 		for k := 0; k+1 < len(it.xs); k += 2 {
@@ -160,7 +162,7 @@ func c17mStaleBB6(it *mpItem) bool {
 		}
 	}
 	for _, x := range it.xs {
-		if c17mStaleBB6(x) {
+		if bb6(x) {
 			return true
 		}
 	}
@@ -249,11 +251,21 @@ func (m *c17m) judgeCase(c *c17mCase, o c17Obs) {
 					safe = false
 				}
 				cause := c17mAllocCause(c.b, r.alloc, limit)
+				if cause == "unexpected" && r.dec == "msgpack.Unmarshal" && r.out == "ok" && c.t != cty.NilType && c17jHasSetOfCompound(c.t) && r.alloc <= 32*limit {
+					// the requested type holds a set whose members are not primitive and the allocation is within 32 times
+					// the bound: the root cause named in c17json.go (set.Values sorts compound members by setRules.Less,
+					// which hashes both operands of every comparison, and hashing a set sorts the sets inside it again)
+					cause = "set-of-compound-members-ordered-by-hash-at-every-traversal"
+				}
 				ctx.Fail(Failure{Site: "alloc", Sig: r.dec + ":" + cause,
 					What:  fmt.Sprintf("%s allocated %d bytes for a %d-byte input: more than %d*len+%d", r.dec, r.alloc, len(c.b), c17mAllocK, c17mAllocC),
 					Input: c.input(), GoLit: c.lit(r.dec), Outcome: fmt.Sprintf("%s alloc=%d len=%d", r.out, r.alloc, len(c.b))})
 			}
 		}
+	}
+	if c.cut != "" && c.t != cty.NilType && (o.uOut == "ok" || o.uOut == "err") {
+		// the allocation cost model on a document cut off after a length header against the measured allocation
+		ctx.Add("d17.cutfit", "fit", c.cut, encTy(c.t), fmt.Sprint(o.uAlloc), fmt.Sprint(c.per))
 	}
 	if c.want != "" && o.uOut != c.want {
 		ctx.Fail(Failure{Site: "regression", Sig: "msgpack.Unmarshal:" + c.fix + ":" + c17mShort(c.b), What: "the witness of a repaired decoder defect (/repo " + c.fix + ") no longer gives " + c.want,
@@ -266,12 +278,8 @@ func (m *c17m) judgeCase(c *c17mCase, o c17Obs) {
 	var tree *mpItem
 	if !c.big && len(c.b) <= 1<<14 {
 		if tr, err := mpReadAll(c.b); err == nil && mpHasBad(tr) == "" && c16StringsNormal(tr) {
-			if c17mStaleBB6(tr) {
-				ctx.Tag("corr-skipped:model-stale-bb6ac26")
-			} else {
-				tree = tr
-				ctx.Tag("lex:one-item-tree")
-			}
+			tree = tr
+			ctx.Tag("lex:one-item-tree")
 		} else {
 			ctx.Tag("lex:not-in-the-item-model")
 		}
@@ -299,12 +307,24 @@ func (m *c17m) judgeCase(c *c17mCase, o c17Obs) {
 				}
 			}
 			if impl != "" {
-				ctx.Add("mp.unmarshal", impl, tree.wire(), encTy(c.t))
+				// the C17 decoder model (lean/CtyModel/d17Msgpack.lean, follows /repo bb6ac26)
+				ctx.Add("d17.unmarshal", impl, tree.wire(), encTy(c.t))
 				m.corrN++
+				// the allocation cost model against what was measured: the model's size of the document is a lower
+				// bound of its bytes (extension bodies counted twice), and a document that decodes allocates at
+				// least one byte per element slot the model counts
+				okFlag := "0"
+				if out == "ok" {
+					okFlag = "1"
+				}
+				ctx.Add("d17.allocfit", "fit", tree.wire(), encTy(c.t), fmt.Sprint(len(c.b)), fmt.Sprint(o.uAlloc), okFlag)
+				if bb6(tree) {
+					ctx.Tag("mp:refinement-states-both-length-bounds:" + out)
+				}
 			}
 		}
 	} else if tree != nil && o.uOut == "panic" {
-		ctx.Add("mp.unmarshal", "panic", tree.wire(), encTy(c.t))
+		ctx.Add("d17.unmarshal", "panic", tree.wire(), encTy(c.t))
 	}
 	if o.iOut == "ok" || o.iOut == "err" {
 		var ty cty.Type
@@ -380,6 +400,7 @@ func runC17Mp(ctx *Ctx) {
 	m.families()
 	m.flush()
 	phase("families")
+	m.d17Families(); m.d17CutFamily(); m.flush(); phase("d17-families")
 	m.maxR = 0
 	m.generated()
 	m.flush()
